@@ -61,7 +61,7 @@ package redis
 
 //@ func handleScan
 //@   prop C18 C11 C02 C01
-//@   assume oneline(respScanTerm)
+//@   assume @before:SetResponse oneline(respScanTerm)
 //@   callpre SetResponse @locally-built-replies-are-one-line oneline(arg1)
 //@   consumes req
 //@   transfers MakeRequestToHost req
